@@ -10,11 +10,16 @@ from vlib.shard import Stage, case_hash
 ID = "C17"
 LEVEL = "exploration"
 TECHNIQUE = "property-based testing: generated multi-chromosome discovery scenarios (Hypothesis), output-only " \
-            "oracle over both GTFs; two-step history feeding IsoQuant's own annotation back as --genedb"
+            "oracle over both GTFs; two-step history feeding IsoQuant's own annotation back as --genedb; the id " \
+            "distributors in isolation (Hypothesis and coverage-guided via atheris) against a string-level oracle"
 RULE = ("Hypothesis-generated scenarios (1-3 chromosomes, annotated + unannotated isoforms sharing exons, optional "
         "reference exon_id attributes / IsoQuant-style reference ids), full pipeline run; stage 'feedback' runs a "
         "second generation on the first run's extended annotation. Non-trivial = some exon printed >= 2 times and "
-        ">= 1 novel transcript reported; distinct by scenario hash.")
+        ">= 1 novel transcript reported; distinct by scenario hash. Stages distributor / fuzz_distributor: generated "
+        "reference id strings (IsoQuant-like and near-miss shapes, contig names with '.', '_', '-', numbers 1-12) in "
+        "a real in-memory gffutils database, 1-25 increments of ExcludingIdDistributor and 1-25 get_id requests to "
+        "FeatureIdStorage; the ids IsoQuant forms from each number must not occur in the reference, exon ids must be "
+        "a preserved/injective function; non-trivial = reference has IsoQuant-shaped ids and exon ids on that contig.")
 ASSUMPTIONS = ["exon identity is (chromosome, start, end, strand) as in the statement",
                "reads are synthetic alignments written with pysam; no aligner involved"]
 
@@ -172,7 +177,171 @@ def feedback_scenarios(draw):
     return sc
 
 
+# ------------------------------------------------------------------------------- id distributors in isolation
+
+CHRS = ["chr1", "chr2", "2", "GL000.1", "scaffold_7", "chr1_alt", "c-1"]
+
+
+@st.composite
+def distributor_cases(draw):
+    """A reference annotation made of id strings (shapes that imitate IsoQuant's own ids, numbers clustered at the low
+    end where generated ids start, contig names with '.', '_' and '-') plus exon ids, and a history of id requests."""
+    chrom = draw(st.sampled_from(CHRS))
+    other = draw(st.sampled_from([c for c in CHRS if c != chrom]))
+    num = st.integers(1, 12)
+
+    # ids that embed a contig name embed the contig the feature lies on (that is what IsoQuant writes; an id naming
+    # another contig than its own location is outside the domain of "previously generated by IsoQuant")
+    def t_shape(c):
+        return st.one_of(
+            st.builds(lambda n, x: "transcript%d.%s.%s" % (n, c, x), num, st.sampled_from(["nic", "nnic"])),
+            st.builds(lambda n: "transcript%d" % n, num),
+            st.builds(lambda n: "transcript_%d" % n, num),
+            st.builds(lambda n: "ENST%05d" % n, num),
+            st.builds(lambda n: "transcriptX.%d" % n, num))
+
+    def g_shape(c):
+        return st.one_of(
+            st.builds(lambda n: "novel_gene_%s_%d" % (c, n), num),
+            st.builds(lambda n: "novel_gene_%d" % n, num),
+            st.builds(lambda n: "G%d" % n, num),
+            st.just("novel_gene_"), st.just("novel_gene_%s_x" % c))
+
+    def e_shape(c):
+        return st.one_of(st.none(), st.builds(lambda n: "%s.%d" % (c, n), num),
+                         st.builds(lambda n: "E%d" % n, num), st.builds(lambda n: "%d" % n, num))
+    genes = []
+    seen_g, seen_t = set(), set()
+    pos = 100
+    exon_ids = {}
+    for _ in range(draw(st.integers(0, 5))):
+        gchr = draw(st.sampled_from([chrom, chrom, chrom, other]))
+        gid = draw(g_shape(gchr))
+        if gid in seen_g:
+            continue
+        seen_g.add(gid)
+        strand = draw(st.sampled_from("+-"))
+        trs = []
+        for _t in range(draw(st.integers(1, 3))):
+            tid = draw(t_shape(gchr))
+            if tid in seen_t:
+                continue
+            seen_t.add(tid)
+            exons = []
+            p = pos
+            for _e in range(draw(st.integers(1, 3))):
+                ln = draw(st.sampled_from([50, 80, 120]))
+                key = (gchr, p, p + ln - 1, strand)
+                if key not in exon_ids:
+                    eid = draw(e_shape(gchr))
+                    # an annotation names an exon consistently and never gives one id to two exons
+                    if eid is not None and eid in set(v for v in exon_ids.values() if v):
+                        eid = None
+                    exon_ids[key] = eid
+                exons.append([p, p + ln - 1, exon_ids[key]])
+                p += ln + draw(st.sampled_from([100, 150]))
+            trs.append({"id": tid, "exons": exons})
+        if trs:
+            genes.append({"id": gid, "chr": gchr, "strand": strand, "transcripts": trs})
+        pos += 1000
+    n_inc = draw(st.integers(1, 25))
+    ref_keys = [list(k) for k in exon_ids if k[0] == chrom]
+    ops = []
+    for _ in range(draw(st.integers(1, 25))):
+        if ref_keys and draw(st.integers(0, 3)) == 0:
+            k = draw(st.sampled_from(ref_keys))
+            ops.append([k[1], k[2], k[3]])
+        else:
+            a = draw(st.sampled_from([100, 150, 230, 300, 5000, 5100]))
+            ops.append([a, a + draw(st.sampled_from([49, 79, 119])), draw(st.sampled_from("+-"))])
+    return {"chr": chrom, "genes": genes, "n_inc": n_inc, "ops": ops}
+
+
+def _gtf_text(case):
+    lines = []
+    for g in case["genes"]:
+        lo = min(e[0] for t in g["transcripts"] for e in t["exons"])
+        hi = max(e[1] for t in g["transcripts"] for e in t["exons"])
+        lines.append('%s\tv\tgene\t%d\t%d\t.\t%s\t.\tgene_id "%s";' % (g["chr"], lo, hi, g["strand"], g["id"]))
+        for t in g["transcripts"]:
+            lines.append('%s\tv\ttranscript\t%d\t%d\t.\t%s\t.\tgene_id "%s"; transcript_id "%s";' % (
+                g["chr"], t["exons"][0][0], t["exons"][-1][1], g["strand"], g["id"], t["id"]))
+            for e in t["exons"]:
+                lines.append('%s\tv\texon\t%d\t%d\t.\t%s\t.\tgene_id "%s"; transcript_id "%s";%s' % (
+                    g["chr"], e[0], e[1], g["strand"], g["id"], t["id"],
+                    (' exon_id "%s";' % e[2]) if e[2] is not None else ""))
+    return "\n".join(lines) + "\n"
+
+
+def evaluate_distributor(case, ctx):
+    import gffutils
+    from vlib import run
+    run.preload()
+    from src.id_policy import ExcludingIdDistributor, FeatureIdStorage, SimpleIDDistributor
+    chrom = case["chr"]
+    db = None
+    if case["genes"]:
+        db = gffutils.create_db(_gtf_text(case), ":memory:", from_string=True, force=True, keep_order=True,
+                                merge_strategy="error", sort_attribute_values=True, disable_infer_transcripts=True,
+                                disable_infer_genes=True)
+    ref_t = set(t["id"] for g in case["genes"] for t in g["transcripts"])
+    ref_g = set(g["id"] for g in case["genes"])
+    dist = ExcludingIdDistributor(db, chrom)
+    prev = 0
+    for _ in range(case["n_inc"]):
+        v = dist.increment()
+        if not isinstance(v, int) or v <= prev:
+            ctx.violation("C17:distributor:numbers-not-strictly-increasing", {"value": v, "previous": prev}, case)
+            break
+        prev = v
+        # the ids IsoQuant forms from this number on this chromosome (graph_based_model_construction.py)
+        made = ["transcript%d.%s.nic" % (v, chrom), "transcript%d.%s.nnic" % (v, chrom)]
+        hit = [m for m in made if m in ref_t]
+        if "novel_gene_%s_%d" % (chrom, v) in ref_g:
+            hit.append("novel_gene_%s_%d" % (chrom, v))
+        if hit:
+            ctx.violation("C17:distributor:generated-id-exists-in-reference:" + ("gene" if hit[0].startswith("novel")
+                                                                                 else "transcript"),
+                          {"number": v, "collides_with": hit, "chr": chrom}, case)
+    # exon ids
+    storage = FeatureIdStorage(SimpleIDDistributor(), db, chrom, "exon")
+    ref_e = {}
+    for g in case["genes"]:
+        for t in g["transcripts"]:
+            for e in t["exons"]:
+                if e[2] is not None and g["chr"] == chrom:
+                    ref_e[(chrom, e[0], e[1], g["strand"])] = e[2]
+    ref_all_ids = set(ref_e.values())
+    got = {}
+    for (a, b, strand) in case["ops"]:
+        key = (chrom, a, b, strand)
+        eid = storage.get_id(chrom, (a, b), strand)
+        if key in got and got[key] != eid:
+            ctx.violation("C17:distributor:exon-id-not-a-function", {"exon": key, "ids": [got[key], eid]}, case)
+        got[key] = eid
+        if key in ref_e and eid != ref_e[key]:
+            ctx.violation("C17:distributor:reference-exon-id-not-preserved", {"exon": key, "reference": ref_e[key],
+                                                                            "got": eid}, case)
+        if key not in ref_e and eid in ref_all_ids:
+            ctx.violation("C17:distributor:generated-exon-id-taken-by-reference", {"exon": key, "id": eid}, case)
+    inv = {}
+    for k, v in got.items():
+        if v in inv and inv[v] != k:
+            ctx.violation("C17:distributor:exon-id-shared-by-distinct-exons", {"id": v, "exons": [inv[v], k]}, case)
+        inv[v] = k
+    shaped = any(t.startswith("transcript") and t[10:11].isdigit() for t in ref_t) or \
+        any(g.startswith("novel_gene_%s_" % chrom) for g in ref_g)
+    ctx.cls("reference-has-isoquant-ids" if shaped else "plain-reference",
+            "reference-exon-ids" if ref_e else "no-reference-exon-ids")
+    if shaped and ref_e:
+        ctx.mark_nontrivial(case_hash(case))
+        ctx.sample({"chr": chrom, "genes": case["genes"][:2], "n_inc": case["n_inc"], "ops": case["ops"][:5]}, limit=2)
+
+
 def stages(tier):
     q = tier == "quick"
     return [Stage("ids", "hyp", evaluate, n=160 if q else 2400, strategy=scenarios),
-            Stage("feedback", "hyp", evaluate_feedback, n=64 if q else 800, strategy=feedback_scenarios)]
+            Stage("feedback", "hyp", evaluate_feedback, n=64 if q else 800, strategy=feedback_scenarios),
+            Stage("distributor", "hyp", evaluate_distributor, n=4000 if q else 120000, strategy=distributor_cases),
+            Stage("fuzz_distributor", "hypfuzz", evaluate_distributor, n=2000 if q else 120000,
+                  strategy=distributor_cases, shards=4 if q else 16)]
